@@ -50,6 +50,8 @@ FUNCS = [
     # X = an XBuffer object: a record of the attributes `buffer` (bytes), `capacity`, `chunks` (a list of Chunk records)
     ("Grow", "context.py", "XBuffer.grow", "XI"),
     ("GetFree", "context.py", "XBuffer.get_free", "X"),
+    # C = a buffer object seen by update_from_xbuffer: its bytes and the identity of its context
+    ("UpdateFromXbuffer", "context.py", "XBuffer.update_from_xbuffer", "CICII"),
     ("ChunkSize", "context.py", "Chunk.size", "O"),
     ("ChunkOverlaps", "context.py", "Chunk.overlaps", "OO"),
     ("ChunkMerge", "context.py", "Chunk.merge", "OO"),
@@ -122,6 +124,8 @@ class Tr:
                 return f"{x.value.id}.{x.attr}_"
             if isinstance(x.value, ast.Name) and x.attr == "buffer" and self.kind_of(x.value.id) == "B":
                 return f"{x.value.id}.buffer_"
+            if isinstance(x.value, ast.Name) and x.attr in ("buffer", "context") and self.kind_of(x.value.id) == "C":
+                return f"{x.value.id}.{x.attr}_"
             if isinstance(x.value, ast.Name) and x.attr in {"buffer", "capacity", "chunks"} and self.kind_of(x.value.id) == "X":
                 return f"{x.value.id}.{x.attr}_"
             if isinstance(x.value, ast.Name) and x.value.id in self.chunk_vars:
@@ -188,6 +192,9 @@ class Tr:
             if isinstance(f, ast.Attribute):
                 if f.attr == "_new_buffer" and isinstance(f.value, ast.Name) and self.kind_of(f.value.id) == "X" and len(x.args) == 1:
                     return f"(Py.new_buffer {self.e(x.args[0])})"
+                if f.attr == "to_bytearray" and isinstance(f.value, ast.Name) and self.kind_of(f.value.id) == "C" and len(x.args) == 2:
+                    self.uses.add("NpToBytearray")
+                    return f"(XoGen.BufferNumpy_to_bytearray (Py.Buf.mk {f.value.id}.buffer_) {self.e(x.args[0])} {self.e(x.args[1])})"
                 if f.attr == "copy" and not x.args:
                     return self.e(f.value)          # a copy of an immutable list is the list
                 if f.attr == "index" and len(x.args) == 1:
@@ -249,6 +256,16 @@ class Tr:
                 o = c.func.value.value.id
                 self.mutated.add(o)
                 return [ind + f"{o} := {{ {o} with chunks_ := {o}.chunks_ ++ [{self.e(c.args[0])}] }}"]
+            if isinstance(c, ast.Call) and isinstance(c.func, ast.Attribute) and isinstance(c.func.value, ast.Name) \
+                    and self.kind_of(c.func.value.id) == "C" and not c.keywords \
+                    and (c.func.attr, len(c.args)) in (("update_from_native", 4), ("update_from_buffer", 2)):
+                o = c.func.value.id
+                self.mutated.add(o)
+                mod_, fn_ = {"update_from_native": ("NpUpdateFromNative", "BufferNumpy_update_from_native"),
+                             "update_from_buffer": ("NpUpdateFromBuffer", "BufferNumpy_update_from_buffer")}[c.func.attr]
+                self.uses.add(mod_)
+                args_ = " ".join(self.e(a) for a in c.args)
+                return [ind + f"{o} := {{ {o} with buffer_ := (XoGen.{fn_} (Py.Buf.mk {o}.buffer_) {args_}).buffer_ }}"]
             if isinstance(c, ast.Call) and isinstance(c.func, ast.Attribute) and c.func.attr == "copy_to_native" \
                     and isinstance(c.func.value, ast.Name) and self.kind_of(c.func.value.id) == "X" and not c.args:
                 kw = {k.arg: k.value for k in c.keywords}
@@ -326,9 +343,9 @@ class Tr:
         raise Unsupported("statement " + type(s).__name__)
 
     def lean(self, lname):
-        ty = {"I": "Int", "L": "List Int", "O": "Py.Obj", "T": "Py.StrOrList", "B": "Py.Buf", "Y": "List UInt8", "X": "Py.XBuf"}
-        objs = [a.arg for a, k in zip(self.fn.args.args, self.kinds) if k in "OBYX"]
-        params = " ".join(f"({a.arg + ('0' if k in 'OBYX' else '')} : {ty[k]})" for a, k in zip(self.fn.args.args, self.kinds))
+        ty = {"I": "Int", "L": "List Int", "O": "Py.Obj", "T": "Py.StrOrList", "B": "Py.Buf", "Y": "List UInt8", "X": "Py.XBuf", "C": "Py.CBuf"}
+        objs = [a.arg for a, k in zip(self.fn.args.args, self.kinds) if k in "OBYXC"]
+        params = " ".join(f"({a.arg + ('0' if k in 'OBYXC' else '')} : {ty[k]})" for a, k in zip(self.fn.args.args, self.kinds))
         if len(self.fn.args.args) != len(self.kinds) or self.fn.args.vararg or self.fn.args.kwarg or self.fn.args.defaults:
             raise Unsupported("signature changed")
         body = [f"  let mut {o} := {o}0" for o in objs] + self.block(self.fn.body, "  ")
